@@ -123,6 +123,10 @@ def run_tlc(module, cfg_text, *, workers=None, simulate=None, depth=None, seed=N
             m = re.match(r"^Error: Action property (\w+) is violated", line)
             if m:
                 res.violated = m.group(1)
+        # TLC's workers print in a nondeterministic order: sort, so that seeded sampling is reproducible
+        for tag in res.lines:
+            if len(res.lines[tag]) > 1:
+                res.lines[tag].sort(key=lambda x: json.dumps(x, sort_keys=True))
         if simulate and not res.generated:
             m = re.search(r"The number of states generated: (\d+)", out)
             if m:
